@@ -18,7 +18,7 @@ RULE = (
     "refusal; distinct = hash of parameters and layout; non-trivial = >=2 samples in the holder"
 )
 ASSUMPTIONS = ["a value-preserving widening of a parameter dtype on load is accepted, a narrowing never"]
-REQUIRED = {"roundtrips_checked": {"quick": 200, "thorough": 5000}, "samples_compared": {"quick": 2000, "thorough": 50000}, "roundtrips_ge_10_samples": {"quick": 60, "thorough": 1500}, "concats_checked": {"quick": 60, "thorough": 1500}, "cli_runs": {"quick": 20, "thorough": 400}, "refusals_checked": {"quick": 150, "thorough": 3000}}
+REQUIRED = {"roundtrips_checked": {"quick": 200, "thorough": 5000}, "samples_compared": {"quick": 2000, "thorough": 50000}, "roundtrips_ge_10_samples": {"quick": 60, "thorough": 1500}, "concats_checked": {"quick": 60, "thorough": 1500}, "cli_runs": {"quick": 20, "thorough": 400}, "refusals_checked": {"quick": 150, "thorough": 3000}, "refused_saves_checked": {"quick": 80, "thorough": 1500}}
 N_CASES = {"quick": 800, "thorough": 9600}
 
 ADV = [5e-324, -5e-324, 1e-310, 0.0, -0.0, 1.0 + 2**-52, 1.0 - 2**-53, 0.1, 1e300, -1e300, 1e-300, 16777217.0, 3.141592653589793, 2.0**-150]
@@ -241,7 +241,28 @@ def run_shard(rec, tier, seed, shard, nshards):
                 except Exception as e:
                     rec.violation("C10/refusal/wrong-exception", "%s raised %r instead of ValueError" % (what, e), w)
                 if len(h.thetas) != n_before:
+                    rec.violation("C10/refusal/refused-operation-had-an-effect", "%s: the holder has %d samples after the refusal, %d before" % (what, len(h.thetas), n_before), w)
                     del h.thetas[n_before:]
+            # a refused save leaves no trace: no new file, and a chain saved earlier under that name is still there
+            if files:
+                import hashlib
+
+                victim = files[int(rng.integers(len(files)))]
+                fresh = os.path.join(tmp, "never-written.h5")
+                with open(victim, "rb") as fh:
+                    before = hashlib.sha256(fh.read()).hexdigest()
+                for target in (fresh, victim):
+                    rec.count("refused_saves_checked")
+                    try:
+                        ThetaHolder(n_thetas=int(rng.integers(0, 4))).save_h5(target)
+                    except Exception:
+                        pass
+                rec.check(not os.path.exists(fresh), "C10/refusal/refused-operation-had-an-effect", "the refused save of an empty collection left a file behind", w)
+                if os.path.exists(fresh):
+                    os.remove(fresh)
+                with open(victim, "rb") as fh:
+                    after = hashlib.sha256(fh.read()).hexdigest()
+                rec.check(before == after, "C10/refusal/refused-operation-had-an-effect", "the refused save of an empty collection changed the chain file that was saved under that name before", w)
             rec.check(h.get_theta(0) is h.thetas[0] and h.get_theta(len(h.thetas) - 1) is h.thetas[-1], "C10/get_theta/in-range", "get_theta in range does not return the stored sample", w)
             if ci == 0 and shard == 0:
                 rec.sample({"kind": kind, "chain_sizes": sizes, "D": D, "adversarial": adv, "first_tags": [float(t.precision) for t in chains[0].thetas[:4]]})
